@@ -35,7 +35,7 @@ def run(ctx):
         return
     # VERIF_BF_SKIP_EXH=1: builder's mutation runs only (the exhaustive TLC part does not depend on the dolt tree)
     for cfg in [] if os.environ.get("VERIF_BF_SKIP_EXH") else ctx.q(EXH_Q, EXH_T):
-        ctx.tlc_check("RefStore.tla", cfg, timeout=ctx.q(7200, 14400), heap=ctx.q("6g", "12g"))
+        ctx.tlc_check("RefStore.tla", cfg, timeout=ctx.q(7200, 14400), heap=ctx.q("6g", "8g"))
     ctx.assumptions += [
         "dataset values are bound structurally (commit = root value, parent list, author; working set = working/staged root, meta variant); "
         "commit hashes are made deterministic with fixed dates so that content-addressed equality in the model is address equality in the store",
@@ -52,10 +52,10 @@ def run(ctx):
                        "T: traces = call/return histories of 3 concurrent goroutines (2 OS processes) accepted by TraceRefStore.tla; evaluations += events matched")
     # ---------------------------------------------------------------- G
     nq = ctx.q(1, 6)
-    beh_s2 = ctx.tlc_behaviours("RefStore.tla", "c20_sim_shared.cfg", num=150 * nq * 2, depth=60, timeout=7200)
-    beh_s3 = ctx.tlc_behaviours("RefStore.tla", "c20_sim_shared3.cfg", num=60 * nq * 2, depth=90, seed=ctx.seed + 11, timeout=7200)
-    beh_i2 = ctx.tlc_behaviours("RefStore.tla", "c20_sim_inst.cfg", num=100 * nq * 2, depth=60, seed=ctx.seed + 23, timeout=7200)
-    beh_i3 = ctx.tlc_behaviours("RefStore.tla", "c20_sim_inst3.cfg", num=40 * nq * 2, depth=90, seed=ctx.seed + 37, timeout=7200)
+    beh_s2 = ctx.tlc_behaviours("RefStore.tla", "c20_sim_shared.cfg", num=150 * nq * 2, depth=60, timeout=7200, procs=4)
+    beh_s3 = ctx.tlc_behaviours("RefStore.tla", "c20_sim_shared3.cfg", num=60 * nq * 2, depth=90, seed=ctx.seed + 11, timeout=7200, procs=4)
+    beh_i2 = ctx.tlc_behaviours("RefStore.tla", "c20_sim_inst.cfg", num=100 * nq * 2, depth=60, seed=ctx.seed + 23, timeout=7200, procs=4)
+    beh_i3 = ctx.tlc_behaviours("RefStore.tla", "c20_sim_inst3.cfg", num=40 * nq * 2, depth=90, seed=ctx.seed + 37, timeout=7200, procs=4)
     fill = ctx.q([0, 30, 400], [0, 30, 400, 3000])
     cs = (bf.gated_cases(ctx, beh_s2[:150 * nq] + beh_s3[:60 * nq], bf.SHARED_BACKENDS, fill) +
           bf.gated_cases(ctx, beh_i2[:100 * nq] + beh_i3[:40 * nq], bf.INST_BACKENDS, fill))
@@ -77,7 +77,7 @@ def run(ctx):
     first = ctx.cov.get("binding_selftest", "")
     ctx.binding_selftest(binary, st, bf.corrupt_drop, args=["gated"])
     ctx.cov["binding_selftest"] = "altered persisted value: %s | dropped CAS step: %s" % (first, ctx.cov.get("binding_selftest", ""))
-    res = ctx.replay_behaviours(binary, cs, args=["gated"], critical=critical, wrap=lambda c: c,
+    res = ctx.replay_behaviours(binary, cs, args=["gated"], critical=critical, wrap=lambda c: c, shards=4,
                                 fingerprint=lambda c, r: "C20:" + str(r.get("fp")), timeout=3000)
     ctx.log("gated replay: %d behaviours, %d ok" % (len(cs), sum(1 for r in res if r.get("ok"))))
     ctx.cov["truncated_at_noop_cas_variant"] = sum(1 for r in res if r.get("truncated"))
